@@ -213,7 +213,61 @@ class CtlScn:
         return None, 1
 
 
-SCENARIOS = {"eq": EqScn, "ctl": CtlScn}
+class NestedScn:
+    """a gateway proxied through a gateway that is itself proxied: same transcript, and
+    exit / wait / kill requests still reach every process of the chain"""
+
+    @staticmethod
+    def scenario(w, P):
+        S = Session(w, "popen", "thread")
+
+        def main():
+            from execnet.multi import Group
+
+            S.group = g = Group(execmodel=S.proc.execmodel)
+            g.makegateway("popen//id=m")
+            g.makegateway("popen//via=m//id=b")
+            gw = g.makegateway("popen//via=b//id=a")
+            direct = g.makegateway("popen//id=d")
+            T, T0 = [], []
+            try:
+                script(P["prog"], gw, T, 1)
+                script(P["prog"], direct, T0, 1)
+            except BaseException as e:  # noqa: BLE001
+                T.append(("EXCEPTION", type(e).__name__, str(e)[:200]))
+            S.ctx["T"], S.ctx["T0"] = T, T0
+            if P.get("stuck"):
+                gw.remote_exec("em = channel.gateway.execmodel\nwhile True:\n    try:\n        em.sleep(0.2)\n    except KeyboardInterrupt:\n        pass")
+                S.proc.execmodel.sleep(0.5)
+            w.exploring = bool(P.get("explore"))
+            t0 = w.now
+            try:
+                g.terminate(timeout=1.0)
+                S.ctx["term"] = "ok"
+            except BaseException as e:  # noqa: BLE001
+                S.ctx["term"] = f"{type(e).__name__}: {str(e)[:150]}"
+            w.exploring = False
+            S.ctx["elapsed"] = w.now - t0
+            S.ctx["alive"] = [p.name for p in w.procs[1:] if p.alive]
+            S.ctx["done"] = True
+
+        S.main(main)
+        return S
+
+    @staticmethod
+    def oracle(w, S, P):
+        c = S.ctx
+        out = (c.get("term"), tuple(c.get("alive", ())))
+        if not c.get("done"):
+            return ("c16:nested-hang", f"P={P} blocked={w.blocked_at_end} stderr={w.stderr.getvalue()[-500:]}"), out
+        if json.dumps(c["T"], default=repr) != json.dumps(c["T0"], default=repr):
+            return ("c16:transcript-differs", f"program {P['prog']} through two proxies: {c['T']} vs direct {c['T0']}"), out
+        if c["term"] != "ok" or c["alive"] or c["elapsed"] > 3 * 4 * 1.0 + 0.5:
+            return ("c16:control-not-forwarded", f"terminate of a nested proxy chain: result {c['term']}, {c['elapsed']} virtual s, processes still alive {c['alive']}"), out
+        return None, out
+
+
+SCENARIOS = {"eq": EqScn, "ctl": CtlScn, "nested": NestedScn}
 
 REAL_CELL = r'''
 import sys, json
@@ -286,6 +340,10 @@ def run(tier: str, only=None) -> int:
         if only and "ctl" not in only:
             continue
         harness.run_exploration(rep, PID, f"ctl/{op}", CtlScn, {"op": op}, {"ps": 0, "free": 0}, max_execs=100)
+    for prog, stuck in (("echo", False), ("subchannel", True), ("error", False)):
+        if only and "nested" not in only:
+            continue
+        harness.run_exploration(rep, PID, f"nested/{prog}{':stuck' if stuck else ''}", NestedScn, {"prog": prog, "stuck": stuck, "explore": True}, {"ps": 1, "free": 0} if tier == "quick" else {"ps": 1, "free": 1}, max_execs=cap, horizon=200000)
     # real processes
     if not only or "real" in only:
         cells = []
